@@ -154,6 +154,10 @@ def run(c):
                 for il in sorted({0, 1, 3, 4, 5, n - 1, n, n + 1, 0xFFFF}):
                     body = ([code, 7, il >> 8, il & 255] + [0, 1, 0x2E, 0x7E, 0x41, 0, 0, 0, 0])[:n]
                     add("plain", b0 + [es[0][0]] + lf(n) + body)
+                    # ... and REPEATED: an inner length far beyond the element (a decoder that sizes storage by it stays within the
+                    # one-maximum-element allowance once, not forty times)
+                    if il in (n + 1, 0xFFFF) or (thorough and il >= n - 1):
+                        add("plain", b0 + ([es[0][0]] + lf(n) + body) * 40)
     NESTED = ([0x2E], [0x2E, 1], [0x2E, 1, 0], [0x2E, 1, 0, 0xC1], [0x7E], [0x7E, 0], [0x7E, 0, 0x41], [0x7E, 2, 0, 0])
     for t in TABLES:
         if t["family"] == "ENV" or t["name"] not in fulls: continue
